@@ -53,7 +53,7 @@ def cases(draw, tier="quick"):
     batch = draw(st.sampled_from([[], [], [2]]))
     nb = 2 if batch else 1
     vals = gen.draw_values(draw, n * nb, dt, "sum" if is_scan else func, nan_p=0.3)
-    lab = gen.draw_labels(draw, n, kinds=["int", "int", "float", "str"], max_groups=5, missing=not (func == "nancumsum"))
+    lab = gen.draw_labels(draw, n, kinds=["int", "int", "float", "str", "u1"], max_groups=5, missing=not (func == "nancumsum"))
     case = {
         "scan": is_scan, "arr": {"dt": dt, "sh": batch + [n], "v": vals}, "by": lab["spec"], "func": func,
         "chunks": [[b] for b in batch] + [sizes],
